@@ -1298,3 +1298,65 @@ var ruleAnnA9 = &Rule{
 			Note: "the type printer writes an array as <element>[] and " + why + ": `(string|number)[]` is printed as `string | number[]`, which reads back as a different type"}}
 	},
 }
+
+// ---------------------------------------------------------------------------------------------
+// ANN/A10: what the type printer writes in front of "(" is a word the annotation lexer reads as a type keyword
+
+var ruleAnnA10 = &Rule{
+	Name:    "ANN/A10-printer-keyword-readable",
+	NeedSSA: true,
+	Text:    "writer and reader agree on spellings: every string constant of the type printer (annotateast.TypeConvertStr) of the form `word(` or `word<` — the opening of a function or table type — has its word in the annotation lexer's keyword table (annotatelexer.keywords), so that the printed type is read back as the same kind of type (printing the understood type and reading it again gives the same type)",
+	Run: func(c *Ctx) []Ob {
+		f := c.SSAFunc(modPath+"/langserver/check/annotation/annotateast", "", "TypeConvertStr")
+		lexPkg := c.Prog.ImportedPackage(modPath + "/langserver/check/annotation/annotatelexer")
+		if f == nil || lexPkg == nil {
+			return []Ob{{Key: "ANN/A10:slot", Verdict: UNDECIDED, Note: "slot unresolved: annotateast.TypeConvertStr / annotatelexer"}}
+		}
+		g, _ := lexPkg.Members["keywords"].(*ssa.Global)
+		if g == nil {
+			return []Ob{{Key: "ANN/A10:slot", Verdict: UNDECIDED, Note: "slot unresolved: annotatelexer.keywords"}}
+		}
+		tab, ok := constTableOf(g)
+		if !ok {
+			return []Ob{{Key: "ANN/A10:keywords", Site: c.Pos(g.Pos()), Verdict: UNDECIDED, Note: "the keyword table is not a constant table any more"}}
+		}
+		var obs []Ob
+		n := 0
+		seen := map[string]bool{}
+		for _, b := range f.Blocks {
+			for _, ins := range b.Instrs {
+				for _, op := range ins.Operands(nil) {
+					k, ok := (*op).(*ssa.Const)
+					if !ok || k.Value == nil || k.Value.Kind() != constant.String {
+						continue
+					}
+					s := constant.StringVal(k.Value)
+					if len(s) < 2 || (s[len(s)-1] != '(' && s[len(s)-1] != '<') {
+						continue
+					}
+					word := s[:len(s)-1]
+					isWord := true
+					for _, r := range word {
+						if r < 'a' || r > 'z' {
+							isWord = false
+						}
+					}
+					if !isWord || seen[s] {
+						continue
+					}
+					seen[s] = true
+					n++
+					key := "ANN/A10:TypeConvertStr:" + s
+					if _, ok := tab[constant.MakeString(word).ExactString()]; ok {
+						obs = append(obs, Ob{Key: key, Site: c.Pos(ins.Pos()), Verdict: OK})
+					} else {
+						obs = append(obs, Ob{Key: key, Site: c.Pos(ins.Pos()), Verdict: VIOLATION,
+							Note: fmt.Sprintf("the printer opens a type with %q, but %q is not a keyword of the annotation lexer: the printed text is read back as the plain type name %q followed by a comment", s, word, word)})
+					}
+				}
+			}
+		}
+		obs = append(obs, floor("ANN/A10-printer-keyword-readable", "type openings written by the printer", n, 2))
+		return obs
+	},
+}
